@@ -1,4 +1,4 @@
-\* thorough design check 3: 3 snapshot levels (block and handle snapshots in any nesting), one Update per block
+\* thorough design check 3: 3 snapshot levels (block and handle snapshots in any nesting)
 SPECIFICATION Spec
 CONSTANTS
   Accts = {}
@@ -13,7 +13,6 @@ CONSTANTS
   MaxCommits = 1
 VIEW mcView
 CONSTRAINT StateConstraint
-ACTION_CONSTRAINT UpdateThenCommit
 INVARIANTS TypeOK IdxConsistent Refines SrSync CommittedIsRef SnapsValid
 PROPERTIES RevertRestores ReadsSeeLastWrite UpdateCommitTransparent
 CHECK_DEADLOCK FALSE
